@@ -105,6 +105,8 @@ def c13(tier, seed):
     ck.add(run_cases(prog, handles.run_reader_case, rc), 'reader scripts with any 64-bit offset, zero-length buffers; dev and release arithmetic')
     ck.add(run_cases(prog, handles.run_writer_case, writer_cases(tier, 'C13')), 'writer sessions')
     ck.add(run_cases(prog, handles.run_lifecycle_case, [{'cfg': c} for c in ['mem', 'alt', 'ovl_upper', 'ovl_lower']]), 'handles used after their file was removed')
+    ck.add(run_cases(prog, handles.run_hostile_dir_case, [{'name': n_} for n_ in (b'\xff', b'a\xc3', b'ok', b'\xc3\xa9')]),
+           'PhysicalFS@OSM over a directory that holds a file with a non-UTF-8 name created behind the library (replayed on a real directory)')
     ocs = ovl_cases('UO3', 2, ['C13'], seed, ncfg=40 if tier == 'quick' else None, k1_ops=overlay.HIST_OPS + overlay.OBS_OPS, k2=4 if tier == 'quick' else 30)
     ck.add(run_cases(prog, overlay.run_history_case, ocs), 'overlay histories')
     ck.bounds = {'universe': 'U5 (+U8 thorough)', 'reader': 'content 0..3/4 bytes, scripts of 3/4 steps, any 64-bit offset', 'overlay': 'UO3, 2 layers, k<=2',
